@@ -997,7 +997,11 @@ func (w *Worker) Nack(ctx context.Context, batch *Batch, taskID string) error {
 			// Both are fatal, so classification is unaffected either way — this
 			// is about not throwing away the cause.
 			if err != nil {
-				return cerrors.FatalError(cerrors.Errorf("%w (while handling: %w)", posErr, err))
+				// cerrors.Errorf is xerrors.Errorf, which wraps nothing at all when
+				// the format holds more than one %w. Join keeps both errors in the
+				// chain: the position error first, so its code is the one
+				// conduiterr.Get reports, and DLQ.Nack's own error behind it.
+				return cerrors.FatalError(cerrors.Join(posErr, cerrors.Errorf("while handling: %w", err)))
 			}
 			return cerrors.FatalError(posErr)
 		}
